@@ -72,6 +72,28 @@ Theorem C15_updated_when_local_unchanged_refuted :
 Proof. exact updated_when_local_unchanged_refuted. Qed.
 Print Assumptions C15_updated_when_local_unchanged_refuted.
 
+(* What DOES hold of merge3(o,o,u) (partial; covers "one-sided edits upstream survive" for added and changed
+   fields): on kinds whose lists are atomic, every non-mapping, non-null value v that updated holds at a path
+   q through mappings is at q in the result, spelled [expected3 (what original = local has at q) v]:
+     - nothing there before:            quote11 v                       (v itself, up to forced quoting)
+     - same text / same list as before: quote11 (old value)             (this is the type-only-change finding)
+     - otherwise:                       v with the STYLE of the old value (this is the quoting finding)
+   provided original consists, along q, of mappings with pairwise different keys or of nothing, and has no
+   explicit null at q.
+   MISSING w.r.t. the full law: removals upstream (false: emptied containers stay, see the refutation above),
+   keyed lists, local edits made at the same time. *)
+Theorem C15_updated_arrives_partial :
+  forall (Sc : Type) (sch : schema Sc) (opts : wopts) (nonstr : string -> bool),
+    atomic_lists sch opts ->
+    forall (q : list string) (o : option node) (uk : list (string * node)) (r v : node),
+      q <> [] ->
+      merge3 sch opts nonstr o o (Some (Map uk)) = Ok (Some r) ->
+      ok_along o q ->
+      getp q (Map uk) = Some v -> is_map v = false -> is_null v = false ->
+      getp q r = Some (expected3 nonstr (getp_o q o) v).
+Proof. exact (@merge3_updated_arrives). Qed.
+Print Assumptions C15_updated_arrives_partial.
+
 (* ... a type-only change upstream (1 -> "1") is ignored, because scalars are compared by their text
    (finding C15/updated_when_local_unchanged/scalar-type-only-change-ignored) ... *)
 Theorem C15_type_only_change_refuted : m3 ty_o ty_o ty_u = Ok (Some ty_o).
